@@ -13,11 +13,11 @@ import (
 	"verif/mc/common"
 )
 
-const offsetNote = "LogEntry.Offset is a storage-only field: the RPC converter (requests.go:104-117 makeProtoEntries) does not put it on the wire although the .proto message has the field, " +
+const offsetNote = "(line numbers as of /repo commit 3df16bc) LogEntry.Offset is a storage-only field: the RPC converter (requests.go:104-117 makeProtoEntries) does not put it on the wire although the .proto message has the field, " +
 	"and the receiving log overwrites it on append (log.go:280-284). It is therefore set to non-zero values in every sent entry, NOT compared on the RPC path, " +
 	"and only counted when it arrives non-zero; on the storage path it must equal the byte position the log assigned and stay the same across reopens."
 
-const senderNote = "By reading raft.go:1618-1628: sendInstallSnapshot reads 'a chunk' with io.Copy(&buf, follower.snapshot), i.e. everything from the current offset to the end of the file, " +
+const senderNote = "(line numbers as of /repo commit 3df16bc) By reading raft.go:1618-1628: sendInstallSnapshot reads 'a chunk' with io.Copy(&buf, follower.snapshot), i.e. everything from the current offset to the end of the file, " +
 	"and sends it as ONE InstallSnapshotRequest (Done = n < 32 KiB, so a file of >= 32 KiB is followed by one empty request with Done=true). snapshotChunkSize (raft.go:39) is never used to cut the data. " +
 	"The bundled transport creates its server with grpc.NewServer() (transport.go:175) and its clients with grpc.NewClient(address, creds) (transport.go:102) without message-size options, " +
 	"so the receiver refuses every request whose serialized form exceeds 4194304 bytes. After the refusal the file position is at EOF (io.Copy consumed it): the next heartbeat sends an empty " +
@@ -71,6 +71,12 @@ func Run(prop, tier string) int {
 	if tier == "thorough" {
 		budget = 6 * time.Minute
 	}
+	if v := os.Getenv("VERIF_CODEC_DEADLINE_S"); v != "" { // dev aid: exercise the deadline path
+		var secs float64
+		if _, err := fmt.Sscan(v, &secs); err == nil && secs > 0 {
+			budget = time.Duration(secs * float64(time.Second))
+		}
+	}
 	deadline := t0.Add(budget)
 	rep := common.NewReport(prop)
 	scratch, err := scratchDir()
@@ -85,12 +91,12 @@ func Run(prop, tier string) int {
 		fmt.Println("INFRA: storage suite:", err)
 		return 2
 	}
-	wire := runWire(tier, deadline)
 	rpc, err := runRPC(tier, deadline, scratch)
 	if err != nil {
 		fmt.Println("INFRA: rpc suite:", err)
 		return 2
 	}
+	wire := runWire(tier, deadline)
 
 	trivial := trivialHashes()
 	dSto := distinct(sto.st.hashes, trivial)
@@ -100,8 +106,8 @@ func Run(prop, tier string) int {
 	perSuite := map[string]map[string]uint64{"storage": sto.st.counts, "wire": wire.st.counts, "rpc": rpc.st.counts}
 	nSto, nWire, nRPC := sum(sto.st.counts), sum(wire.st.counts), sum(rpc.st.counts)
 	all.merge(sto.st)
+	all.merge(rpc.st) // before wire: on a tie the replay goes through the real transport
 	all.merge(wire.st)
-	all.merge(rpc.st)
 	dAll := distinct(all.hashes, trivial)
 	all.hashes = nil
 	evaluations := nSto + nWire + nRPC
@@ -133,10 +139,10 @@ func Run(prop, tier string) int {
 	}
 
 	parts := []any{map[string]any{"part": "storage", "cases": sto.cases, "done": sto.done, "wall_s": sto.wall, "rule": storageRule}}
-	for _, p := range wire.parts {
+	for _, p := range rpc.parts {
 		parts = append(parts, p)
 	}
-	for _, p := range rpc.parts {
+	for _, p := range wire.parts {
 		parts = append(parts, p)
 	}
 	samples := append(append(append([]any{}, rpc.samples...), wire.samples...), sto.samples...)
@@ -144,32 +150,32 @@ func Run(prop, tier string) int {
 		samples = samples[:6]
 	}
 	cov := map[string]any{
-		"evaluations":              evaluations,
-		"evaluations_explained":    "messages sent through the real transports (requests and responses counted separately) + messages through the in-process converter/codec round trip + storage records written and read back through a fresh instance",
-		"rpcs":                     rpc.rpcs,
-		"transport_pairs":          rpc.pairs,
-		"per_type":                 perSuite,
-		"distinct_nontrivial":      dAll,
-		"distinct_nontrivial_rule": "number of distinct (message type, encoded form) pairs, counted from a 64-bit hash of the protobuf encoding of every message sent (the encoding the transport puts on the wire) and of the file image of every stored record (configurations: canonical rendering of the value, because protobuf writes maps in random order), excluding the encodings of the all-defaults messages/records; the union over the three suites counts a message seen by several suites once",
+		"evaluations":                  evaluations,
+		"evaluations_explained":        "messages sent through the real transports (requests and responses counted separately) + messages through the in-process converter/codec round trip + storage records written and read back through a fresh instance",
+		"rpcs":                         rpc.rpcs,
+		"transport_pairs":              rpc.pairs,
+		"per_type":                     perSuite,
+		"distinct_nontrivial":          dAll,
+		"distinct_nontrivial_rule":     "number of distinct (message type, encoded form) pairs, counted from a 64-bit hash of the protobuf encoding of every message sent (the encoding the transport puts on the wire) and of the file image of every stored record (configurations: canonical rendering of the value, because protobuf writes maps in random order), excluding the encodings of the all-defaults messages/records; the union over the three suites counts a message seen by several suites once",
 		"distinct_nontrivial_by_suite": map[string]uint64{"storage": dSto, "wire": dWire, "rpc": dRPC},
 		"rule": "exhaustive enumeration, no sampling. Domains: uint64 {0,1,2^32,max}; int64 {0,1,2^32,max,-1,min}; ids {\"\",\"a\",\"ñ✓漢\"}; bools; byte slices {nil,empty,1B,1KiB}; entry types {0,1,2}; " +
 			"InstallSnapshot.Bytes {nil,empty,1B,32KiB-1,32KiB,32KiB+1,4MiB-64KiB,4MiB+1,8MiB}. Each part below states its product. Every RPC part alternates the direction a->b / b->a by ordinal; " +
 			"one RPC in flight per transport pair, so what the handler recorded is attributed without any identifier inside the message. " +
 			"Oracle: field-wise equality, nil == empty for byte slices, entry lists and maps; an error from Send* on a valid message is a failure.",
-		"parts":                      parts,
-		"samples":                    samples,
-		"exhaustive":                 exhaustive,
-		"deadline_s":                 budget.Seconds(),
-		"largest_passed":             all.maxPassed,
-		"smallest_refused":           all.minRefused,
-		"receive_limit_bisection":    rpc.bisect,
-		"signatures":                 sigEv,
-		"known_findings_matched":     len(rep.KnownSeen),
-		"entry_offset":               offsetNote,
+		"parts":                       parts,
+		"samples":                     samples,
+		"exhaustive":                  exhaustive,
+		"deadline_s":                  budget.Seconds(),
+		"largest_passed":              all.maxPassed,
+		"smallest_refused":            all.minRefused,
+		"receive_limit_bisection":     rpc.bisect,
+		"signatures":                  sigEv,
+		"known_findings_matched":      len(rep.KnownSeen),
+		"entry_offset":                offsetNote,
 		"entries_arrived_with_offset": all.offsetSeen,
-		"sender_path":                senderNote,
-		"sender_emulation":           rpc.sender,
-		"transient_rpc_retries":      all.retries,
+		"sender_path":                 senderNote,
+		"sender_emulation":            rpc.sender,
+		"transient_rpc_retries":       all.retries,
 	}
 	ev := &common.Evidence{PropertyID: prop, Tier: tier, Seed: common.Seed(), Level: "exploration", Coverage: cov,
 		Assumptions: []string{
